@@ -173,8 +173,11 @@ impl BuildJob<'_> {
             if !sf.is_override {
                 log_warn!("{:?} - old: {:?}\n", &nice_t, &sf.stamp);
                 log_warn!("{:?} - old: {:?}\n", &nice_t, &newstamp);
-                sf.set_override(ptx.state().env())?;
             }
+            // Also when the override is already known: the file may have been edited
+            // again, and its new stamp must be recorded (the flag is kept), or every
+            // later check finds it changed and rebuilds its dependents each time.
+            sf.set_override(ptx.state().env())?;
             sf.save(&mut ptx)?;
             // Fall through and treat it the same as a static file.
         }
